@@ -21,6 +21,12 @@ ASSUMPTIONS = [
     "the batch processor is the real BatchLogRecordProcessor (worker thread, circular buffer) in front of an "
     "exporter that keeps the recordables; the driver calls ForceFlush before counting; WHEN the worker hands a record over is irrelevant "
     "because kept records are read at the end of the case",
+    "Q1..Q4 processors are the real BatchLogRecordProcessor with max_export_batch_size 1..4 (queue 64) in front of an exporter that only "
+    "READS the span it is handed (renders every record, releases nothing), so a record handed over twice is seen twice; during a burst "
+    "(BU: 2*batch+1..12 emissions in a row from one thread) that exporter's Export is held back until the last Emit returned, hence some "
+    "export cycle has to drain several batches whatever the worker's timing; then ForceFlush (or, for a last unflushed burst, provider "
+    "Shutdown). What that exporter saw must be exactly the emitted records, in order, each once (SPEC clauses as for every exporter); "
+    "the model states that delivery is complete when the emitting operation is over (C01-C03 own the batch protocol itself)",
     "SDK spans are root spans of a real TracerProvider with a scripted id generator/sampler (flags 0/1); other flag bytes and invalid ids are "
     "made active as DefaultSpan / shared_ptr<SpanContext> context values",
     "Logger::Enabled(severity) / minimum severity is not consulted by EmitLogRecord at this commit and no SDK code sets it: not modelled",
@@ -112,7 +118,7 @@ class Gen:
         """returns (token string, [addresses referenced])"""
         r = self.r
         if kind is None:
-            scalar_bias = {"scalar": 10, "mixed": 4, "refs": 1, "nobatch": 4}[self.profile]
+            scalar_bias = {"scalar": 10, "mixed": 4, "refs": 1, "nobatch": 4, "burst": 5}[self.profile]
             kind = "scalar" if r.below(10) < scalar_bias else r.choice(["s", "s", "c", "A", "A", "S"])
         if kind == "scalar":
             k = r.choice("biludU")
@@ -242,7 +248,23 @@ def gen_case(rng, profile, nameless=True, ill=False, force_nameless=False):
     procs = [r.choice("IIKKKBP") for _ in range(r.choice([0, 1, 1, 2, 2, 2, 3, 3]))]
     if profile == "nobatch":
         procs = [("K" if p == "B" else p) for p in procs]
+    bmax = 0
+    if profile == "burst":
+        # at least one batch processor with a SMALL max_export_batch_size in front of an exporter that only reads
+        bmax = r.choice([1, 2, 2, 3, 3, 4, 4])
+        procs = procs[:2] + ["Q%d" % bmax]
+        if r.chance(1, 3):
+            procs.append("Q%d" % (1 + r.below(bmax)))
+        r.shuffle(procs)
     nprocs = len(procs)
+
+    def burst(flush):
+        # more than two batches' worth, so that some export cycle has to drain several batches whatever the worker's timing
+        n = 2 * bmax + 1 + r.below(12 - 2 * bmax)
+        sig = r.choice(SIGS_E) if r.chance(2, 3) else r.choice([s for s in SIGS_E if len(s) >= 3])
+        a, rf = g.args_for(sig, nameless)
+        l = pick_logger(None if r.chance(1, 6) else True)
+        return ("BU %d %d %d %d %s" % (thread(), l, n, flush, a)).strip(), (rf if enabled(l) else [])
 
     slots = []          # 'null' | 'noop' | 'live'
     toks = []           # [thread, live]
@@ -262,9 +284,13 @@ def gen_case(rng, profile, nameless=True, ill=False, force_nameless=False):
                 return r.choice(c)
         return r.choice(ls)
 
-    nops = r.choice([2, 3, 4, 5, 6, 8, 10, 14])
+    nops = r.choice([2, 3, 4, 5, 6, 8, 10, 14]) if profile != "burst" else r.choice([1, 2, 3, 4, 6])
     for step in range(nops):
         k = r.below(100)
+        if profile == "burst" and r.chance(2, 5):
+            o, rf = burst(1)
+            ops.append(o); referenced += rf
+            continue
         if k < 14:        # open a scope / attach
             t = thread()
             j = r.below(10)
@@ -363,6 +389,8 @@ def gen_case(rng, profile, nameless=True, ill=False, force_nameless=False):
         elif k < 97:
             if nprocs < 4:
                 p = r.choice("IKP" if profile == "nobatch" else "IKBP")
+                if profile == "burst" and r.chance(1, 2):
+                    p = "Q%d" % (1 + r.below(bmax))
                 ops.append("AD " + p); nprocs += 1
         else:
             ops.append("NM %d" % pick_logger())
@@ -393,6 +421,10 @@ def gen_case(rng, profile, nameless=True, ill=False, force_nameless=False):
         else:
             ops.append("MU 0 hz i 1 2 3 4 5 6 7 8 9")
     ops = [o for o in ops if o]
+    if profile == "burst" and not ill and r.chance(2, 5):
+        # a last burst that is NOT flushed: delivered when the provider shuts down
+        o, _ = burst(0)
+        ops.append(o)
     head = "CFG %d%s ; LG %s ; SP %s ; RES %s ; PR%s ; HP %s ; OPS %s" % (
         def_dis, "".join(" %s %d" % (hx(k), d) for k, d in conds),
         " ".join("%s %s %s %s" % tuple(hx(x) for x in lg) for lg in loggers),
@@ -440,13 +472,15 @@ def gen(rng, tier):
         cases.append(gen_case(rng, "nobatch"))
     for _ in range(120 * n):
         cases.append(gen_case(rng, "mixed", force_nameless=True))
+    for _ in range(350 * n):
+        cases.append(gen_case(rng, "burst"))
     for _ in range(40 * n):
         cases.append(gen_case(rng, "mixed", ill=True))
     return cases
 
 
 def widen(rng, k):
-    return [gen_case(rng, rng.choice(["mixed", "refs", "scalar", "nobatch"])) for _ in range(1500)]
+    return [gen_case(rng, rng.choice(["mixed", "refs", "scalar", "nobatch", "burst"])) for _ in range(1500)]
 
 
 def shrink(case):
